@@ -279,7 +279,9 @@ Upd(ev) ==
   /\ scen' = IF ev.a = "Scenario" THEN ev.s ELSE scen
   /\ IF ev.a = "Recv" THEN
         LET b == ev.b
-            bad == ~b.ok \/ ~b.crcok
+            \* corrupt: the scenario produced these octets by a bit flip / burst inside a CRC-protected block of
+            \* a valid bundle (the damaged block may no longer be recognisable as a block at all)
+            bad == ~b.ok \/ ~b.crcok \/ ev.corrupt
             own == ~bad /\ ev.own
             dup == ~bad /\ ~own /\ b.id \in DOMAIN hist
             kind == IF bad THEN "bad" ELSE IF own THEN "own" ELSE IF dup THEN "dup" ELSE "new"
